@@ -302,7 +302,11 @@ func addressKeyOK(v ssa.Value) (bool, string) {
 			}
 		}
 	}
-	ok = strings.HasPrefix(got["Device"], "recv.") && strings.HasSuffix(got["Device"], ".address.Device") && strings.HasPrefix(got["Entity"], "recv.") && strings.HasSuffix(got["Entity"], ".address.Entity") && got["Feature"] == ""
+	// the entity's own address, read from the field or through its getter
+	own := func(pth, part string) bool {
+		return strings.HasPrefix(pth, "recv.") && (strings.HasSuffix(pth, ".address."+part) || strings.HasSuffix(pth, ".Address()."+part))
+	}
+	ok = own(got["Device"], "Device") && own(got["Entity"], "Entity") && got["Feature"] == ""
 	return ok, fmt.Sprintf("{Device: %s, Entity: %s, Feature: %s}", got["Device"], got["Entity"], got["Feature"])
 }
 
